@@ -1373,8 +1373,11 @@ func (enc *VP8Encoder) EncodeFrame() ([]byte, error) {
 		if !doSearch {
 			break // quality mode: single pass
 		}
-		// Rate control: check if we hit the target.
-		if enc.adjustQuantForTarget() {
+		// Rate control: check if we hit the target. After the last pass nothing
+		// may change any more: the frame is emitted from this pass's tokens, so the
+		// quantizers written to the header must be the ones this pass used (and the
+		// planes must keep its reconstruction).
+		if pass == maxPasses-1 || enc.adjustQuantForTarget() {
 			break
 		}
 	}
